@@ -120,14 +120,14 @@ PROPS = {
         "assumptions": ["informer caches are monotone per kind", "run objects are removed by others only after their Trial completed", "algorithm service returns fresh names"],
     },
     "C16": {
-        "prop_files": ['Katib/Props/C16.lean', 'Katib/Props/C16World.lean', 'Katib/Props/C16Succeeded.lean'],
+        "prop_files": ['Katib/Props/C16.lean', 'Katib/Props/C16World.lean', 'Katib/Props/C16Succeeded.lean', 'Katib/Props/C16Quiescent.lean'],
         "streams": [('SIM', {'quick': 240, 'thorough': 8000})],
         "rule": "seeded random schedules of the three real reconcilers on the fake client (1-2 experiments, optionally equally named in two namespaces; maxTrialCount 1-4/unset, parallel 1-3, maxFailed, goal, three resume policies, early stopping, retain, push collector), ops = reconciles with per-kind monotone lagging views (random lag, stalled informers, one kind's cache held for several reconciles - also exactly at the Experiment copy from before its verdict), write-fault masks, abort points, algorithm reply faults (short/long/error, rules RPC error), job outcomes, metric arrival (also after the verdict), early stop, deployment ready, external removal of a completed trial's run object, a run-object-creating reconcile cut off before its status write with the job finishing before the retry; scripted RPC failures cycle through gRPC status codes; then fault-free settling to quiescence, a quiescence probe, optionally one or two budget raises each with a second settling, and optionally a teardown in which Trials are deleted and reconciled while the database call or the finalizer write fails; every op's write log and the whole store are compared with the Lean model; a case = one schedule; distinct = distinct op sequence",
         "trusted": ["controller-runtime fake client stands in for the kube-apiserver (rv conflicts, status subresource, AlreadyExists)",
                     "fake algorithm / early-stopping / DB-manager services", "typed reads inside a reconcile come from a snapshot (informer cache), run objects are read live"],
         "modelled": ["ReconcileExperiment.Reconcile / ReconcileSuggestion.Reconcile / ReconcileTrial.Reconcile and helpers as Katib.Ctl.expPlan / sugPlan / trialPlan",
                      "API-server semantics as Katib.Ctl.applyCall", "the op/step state machine Katib.Ctl.step"],
-        "level_text": 'resume-policy theorems about the controller model; correspondence + oracle on schedules with budget raises',
+        "level_text": 'resume-policy theorems about the controller model; correspondence + oracle on schedules with budget raises; C16_quiescent_cleanup: for every store in which the experiment and suggestion controllers have no write to issue, a completed Experiment under Never / FromVolume has a completed or restarting Suggestion, and a Succeeded Suggestion has neither Deployment nor Service left',
         "level_note": "trusted: Lean kernel; harness/check; fake client as API server; views monotone per kind; the tie between Lean model and Go controllers is differential (sampling)",
         "assumptions": ["informer caches are monotone per kind", "run objects are removed by others only after their Trial completed", "algorithm service returns fresh names"],
     },
